@@ -210,8 +210,8 @@ class Node(ModelElement):
         # check properties
         req_props = NodeSliver.NodeConstraints[nstype].required_properties
         forb_props = NodeSliver.NodeConstraints[nstype].forbidden_properties
-        _, node_properties = self.topo.graph_model.get_node_properties(node_id=self.node_id)
-        node_sliver = self.topo.graph_model.node_sliver_from_graph_properties_dict(node_properties)
+        # deep sliver, so that attached components are visible to the checks
+        node_sliver = self.get_sliver()
         for rp in req_props:
             if not node_sliver.property_exists(rp) or \
                     (node_sliver.property_exists(rp) and not node_sliver.get_property(rp)):
